@@ -138,6 +138,24 @@ def structured_sample(tier):
     for n, (tag, prog) in enumerate(alias_matrix()):
         if tier != "quick" or n % 2 == 0 or "empty" in tag:
             out.append(("alias-matrix", prog))
+    for n, (tag, prog) in enumerate(c05.value_positions()):
+        if n % (3 if tier == "quick" else 1) == 0:
+            out.append(("value-position", prog))
+    # keys that are equal as values (1 and 1.0, 0.0 and -0.0, arrays of such) address one entry
+    from ..past import vfloat, arr, map_, idx, asg
+    pairs = [(I(1), lit(vfloat(1.0))), (lit(vfloat(2.0)), I(2)), (I(0), lit(vfloat("nzero"))), (lit(vfloat(0.0)), lit(vfloat("nzero"))),
+             (arr(I(1), I(2)), arr(lit(vfloat(1.0)), I(2))), (arr(arr(I(0))), arr(arr(lit(vfloat(0.0))))), (I(7), I(7)), (I(1), I(2))]
+    for k1, k2 in pairs:
+        for how in ("literal", "index", "insert"):
+            if how == "literal":
+                mk = [let("m", map_((k1, I(10))))]
+            elif how == "index":
+                mk = [let("m", map_()), expr(asg(idx(ident("m"), k1), I(10)))]
+            else:
+                mk = [let("m", map_()), obs(call("insert", ident("m"), k1, I(10)))]
+            out.append(("map-equal-keys", [OBS_DECL] + mk + [obs(call("contains", ident("m"), k2)), obs(call("get", ident("m"), k2)),
+                                                               obs(call("insert", ident("m"), k2, I(20))), obs(call("len", ident("m"))),
+                                                               obs(idx(ident("m"), k1))]))
     return out
 
 
@@ -173,7 +191,7 @@ def run(rep, tier, seed):
     machine_level(rep, items, tier)
     for it, out, v in bad:
         delta = progs.outcome_delta(v["exp"], out)
-        if it["tag"].startswith("illformed") or it["tag"] in ("skeleton-in-function", "loop-nest", "control-transfer-in-operand", "alias-matrix"):
+        if it["tag"].startswith("illformed") or it["tag"] in ("skeleton-in-function", "loop-nest", "control-transfer-in-operand", "alias-matrix", "value-position", "map-equal-keys"):
             sig = "%s %s" % (it["tag"], delta)
         else:
             sig = "random-program %s" % delta
